@@ -2,7 +2,10 @@
 //verif:pkg gcs/builder
 package builder
 
-import "github.com/btcsuite/btcd/wire/v2"
+import (
+	"github.com/btcsuite/btcd/chainhash/v2"
+	"github.com/btcsuite/btcd/wire/v2"
+)
 
 // output / previous-output script shapes a block can carry
 func vFilterScript(kind int, slot byte) (script []byte, excluded bool) {
@@ -55,5 +58,35 @@ func VH_basic_filter_no_false_negative() {
 		ok, err := f.Match(key, s)
 		vAssert(err == nil && ok, "every script BIP158 makes an element of the block's filter matches")
 	}
+	vReach("end")
+}
+
+// C20(5'): filter hash and filter header chain: the filter hash is the double-SHA256 of the N-prefixed serialisation,
+// and header(i) = double-SHA256(filterHash(i) || header(i-1)) - filter hash first - for filters of 0..2 concrete
+// elements and an arbitrary previous header.
+//verif:opts reach=end
+func VH_filter_header_chain() {
+	var key [16]byte
+	for i := range key {
+		key[i] = byte(i + 3)
+	}
+	n := vNondetLen("elements", 2)
+	var data [][]byte
+	for i := 0; i < n; i++ {
+		data = append(data, []byte{0x51, byte(i)})
+	}
+	b := WithKey(key)
+	b.AddEntries(data)
+	f, err := b.Build()
+	vAssert(err == nil, "filter builds")
+	nb, err := f.NBytes()
+	vAssert(err == nil, "serialises")
+	fh, err := GetFilterHash(f)
+	vAssert(err == nil && fh == chainhash.DoubleHashH(nb), "filter hash == H(H(N || filter bytes))")
+	var prev chainhash.Hash
+	copy(prev[:], vNondetBytes("prevHeader", 32))
+	hdr, err := MakeHeaderForFilter(f, prev)
+	want := chainhash.DoubleHashH(append(append([]byte{}, fh[:]...), prev[:]...))
+	vAssert(err == nil && hdr == want, "filter header == H(H(filterHash || previous header))")
 	vReach("end")
 }
